@@ -636,13 +636,14 @@ class C12(Property):
         stuck = 0
         t0 = time.time()
         first = True
+        slow = False        # a chunk of 150 generated cases took more than 90 s (a correct tree: 3-20 s)
         while pending:
             if stuck >= 2:      # two confirmed already: do not spend minutes per case on a tree that hangs
                 res += [{"skipped": True} for _ in pending]
                 break
-            if time.time() - t0 > self.exec_budget_s and len(cases) > 200:
+            if (time.time() - t0 > self.exec_budget_s or slow) and len(cases) > 200:
                 # (a correct tree needs 10-30 s for a quick run; a tree whose ticks take seconds each would need hours)
-                self.skipped_for_time = len(pending)
+                self.skipped_for_time += len(pending)
                 res += [{"skipped": True} for _ in pending]
                 break
             # the fixed corpus first, in a process of its own; then chunks of 150
@@ -650,9 +651,16 @@ class C12(Property):
             first = False
             size = k0 if 0 < k0 < len(pending) else 150
             chunk, pending = pending[:size], pending[size:]
-            rc, out, r = vlib.go_run(binpath, chunk, tag="c12", timeout=900, env=env)
+            t1 = time.time()
+            rc, out, r = vlib.go_run(binpath, chunk, tag="c12", timeout=(240 if k0 == 0 and len(cases) > 200 else 900), env=env)
+            slow = slow or (k0 == 0 and time.time() - t1 > 90)
             if rc == 0 and len(r) == len(chunk):
                 res += r
+                continue
+            if rc == 124 and k0 == 0 and len(cases) > 200 and not (r and r[-1].get("stuck")):
+                # the chunk as a whole is far too slow (no single case was found stuck): keep what completed
+                res += r[:len(chunk)] + [{"skipped": True} for _ in chunk[len(r):]]
+                self.skipped_for_time += len(chunk) - len(r)
                 continue
             if "DATA RACE" in out:
                 raise ExecError("c12 executor rc=%s: %s" % (rc, out[-3000:]))
